@@ -144,7 +144,7 @@ class CacheMachine(RuleBasedStateMachine):
         if STATS is not None:
             STATS.fail(key, list(self.history), f"step {self.history[-1]}: {detail}")
 
-    @rule(si=st.integers(0, 6), who=st.sampled_from(["same", "same", "restart", "second"]), behaviour=st.sampled_from(["newer", "newer", "same", "older", "uptodate", "uptodate", "errstatus", "garbage", "transport"]))
+    @rule(si=st.integers(0, 6), who=st.sampled_from(["same", "same", "restart", "second", "other", "other"]), behaviour=st.sampled_from(["newer", "newer", "same", "older", "uptodate", "uptodate", "errstatus", "garbage", "transport"]))
     def request(self, si, who, behaviour):
         si = self.servers_allowed[si % len(self.servers_allowed)]
         server = SERVERS[si]
@@ -153,11 +153,21 @@ class CacheMachine(RuleBasedStateMachine):
             behaviour = "newer"
         step = ["request", si, who, behaviour]
         self.history.append(step)
-        if who != "same" or si not in self.clients:
-            self.clients[si] = new_client(server)
-            if held is not None and who != "same":
-                self.flags.add("write-then-(uptodate|failure|restart)")
-        client = self.clients[si]
+        # live client instances of this server: 'same' = the one used last, 'restart' = it is replaced by a new one,
+        # 'second' = a further instance with equal configuration joins, 'other' = a different live instance is used
+        live = self.clients.setdefault(si, [])
+        if not live:
+            live.append(new_client(server))
+        elif who == "restart":
+            live[-1] = new_client(server)
+        elif who == "second" and len(live) < 3:
+            live.append(new_client(server))
+        elif who == "other" and len(live) > 1:
+            live.append(live.pop(0))
+            self.flags.add("another live client of the same server used")
+        if held is not None and who != "same":
+            self.flags.add("write-then-(uptodate|failure|restart)")
+        client = live[-1]
         served = None
         if behaviour == "newer":
             y = self.maxyear.get(si, server["base"]) + 1
